@@ -547,6 +547,15 @@ class Norm:
         return self._mk("%s[%s]" % (base, sk), "sub", n, {"base": base, "index": idx, "slice": n.slice, "value": n.value})
 
     def _n_Call(self, n, d):
+        # len([e for x in L]) == len(L): a comprehension without filter has one element per element of its (single) source
+        if isinstance(n.func, ast.Name) and n.func.id == "len" and len(n.args) == 1 and not n.keywords:
+            a = n.args[0]
+            if isinstance(a, ast.Name) and self.scope is not None and a.id not in self.bind:
+                v = self.scope.reaching(a.id, a)
+                if isinstance(v, ast.ListComp):
+                    a = v
+            if isinstance(a, ast.ListComp) and len(a.generators) == 1 and not a.generators[0].ifs:
+                return self._n_Call(ast.copy_location(ast.Call(func=n.func, args=[a.generators[0].iter], keywords=[]), n), d)
         f = self._k(n.func, d)
         args = []
         for a in n.args:
